@@ -145,115 +145,177 @@ func checkC19(w *World, r *Report) {
 	// the fast-path assertion inside WriteTo/ReadFrom methods is on the embedded interface value
 	checkProxyAssertions(w, r, "C19.P-ASSERT")
 
-	// constructors
-	for _, spec := range []struct{ name, iface, fast string }{{"mpb.newProxyReader", "io.WriterTo", "WriteTo"}, {"mpb.newProxyWriter", "io.ReaderFrom", "ReadFrom"}} {
+	// constructors (private helpers inlined): the flavour returned on each path, and the closer it wraps
+	for _, spec := range []struct{ name, iface, fast, closer string }{{"mpb.newProxyReader", "io.WriterTo", "WriteTo", "io.ReadCloser"}, {"mpb.newProxyWriter", "io.ReaderFrom", "ReadFrom", "io.WriteCloser"}} {
 		fn := w.Func(spec.name)
 		if fn == nil {
 			r.Unresolved("anchor", spec.name, "not found")
 			continue
 		}
-		bad := ""
+		bad, badC := "", ""
 		saw := map[string]bool{}
-		nP, _ := w.enumPaths(fn, pathOpts{InlineDepth: 0}, func(p *Path) {
+		sawSelf, sawWrap := false, false
+		arg := ssa.Value(fn.Params[0])
+		nP, over := w.enumPaths(fn, pathOpts{InlineDepth: 3, Inline: w.helperInline(fn)}, func(p *Path) {
 			if bad != "" || p.Exit != "return" || len(p.Ret) != 1 {
 				return
 			}
-			mi, ok := p.Ret[0].V.(*ssa.MakeInterface)
+			rv := p.R(p.Ret[0])
+			mi, ok := rv.V.(*ssa.MakeInterface)
 			if !ok {
 				bad = "constructor does not return a concrete proxy value"
 				return
 			}
 			ct := mi.X.Type()
 			has := w.Prog.MethodSets.MethodSet(ct).Lookup(nil, spec.fast) != nil
-			// successful assertion on the caller's value on this path?
-			asserted := tri(triUnknown)
-			for _, a := range p.Atoms {
-				c := p.cmpOf(a)
-				if c.Op != token.ILLEGAL {
-					continue
+			// outcome, on this path, of the comma-ok assertion of the caller's value to iface
+			foreign := false
+			asserted := func(iface string) tri {
+				out := tri(triUnknown)
+				for _, a := range p.Atoms {
+					c := p.cmpOf(a)
+					if c.Op != token.ILLEGAL {
+						continue
+					}
+					ex, ok := c.X.V.(*ssa.Extract)
+					if !ok || ex.Index != 1 {
+						continue
+					}
+					ta, ok := ex.Tuple.(*ssa.TypeAssert)
+					if !ok || typeName(ta.AssertedType) != iface {
+						continue
+					}
+					if p.R(Val{ta.X, c.X.F, c.X.E}).V != arg {
+						foreign = true
+						continue
+					}
+					if c.Pol {
+						out = triTrue
+					} else {
+						out = triFalse
+					}
 				}
-				ex, ok := c.X.V.(*ssa.Extract)
-				if !ok || ex.Index != 1 {
-					continue
-				}
-				ta, ok := ex.Tuple.(*ssa.TypeAssert)
-				if !ok || typeName(ta.AssertedType) != spec.iface {
-					continue
-				}
-				if ta.X != ssa.Value(fn.Params[0]) {
-					bad = "the fast-path capability is tested on a value other than the one the caller handed in"
-					return
-				}
-				if c.Pol {
-					asserted = triTrue
-				} else {
-					asserted = triFalse
-				}
+				return out
 			}
-			if asserted == triUnknown {
-				bad = "a return does not depend on whether the wrapped value implements " + spec.iface
+			fast := asserted(spec.iface)
+			if fast == triUnknown {
+				if foreign {
+					bad = "the fast-path capability is tested on a value other than the one the caller handed in"
+				} else {
+					bad = "a return does not depend on whether the wrapped value implements " + spec.iface
+				}
 				return
 			}
-			if has != (asserted == triTrue) {
+			if has != (fast == triTrue) {
 				bad = fmt.Sprintf("the proxy offers %s although the wrapped value %s (or the reverse): io.Copy would panic in the unchecked assertion or lose the fast path", spec.fast, map[bool]string{true: "does not implement it", false: "implements it"}[has])
 				return
 			}
 			// ewma flavour from the flag
-			flag := p.hasBool(-1, true, func(v Val) bool { return v.V == ssa.Value(fn.Params[2]) })
-			noflag := p.hasBool(-1, false, func(v Val) bool { return v.V == ssa.Value(fn.Params[2]) })
+			isFlag := func(v Val) bool { return v.V == ssa.Value(fn.Params[2]) }
+			flag := p.hasBool(-1, true, isFlag)
+			noflag := p.hasBool(-1, false, isFlag)
 			isE := strings.Contains(strings.ToLower(shortType(ct)), "ewma")
 			if !(flag || noflag) || isE != flag {
 				bad = "the ewma flavour of the proxy is not chosen by the constructor's flag"
 				return
 			}
 			saw[fmt.Sprintf("%v/%v", has, isE)] = true
-			// the proxy wraps the closer made from the caller's value and this bar
-			okWrap := false
-			var walk func(v ssa.Value, d int)
-			seenW := map[ssa.Value]bool{}
-			walk = func(v ssa.Value, d int) {
-				if d > 40 || seenW[v] || okWrap {
+			// the closer the proxy wraps: first field, through embedded proxy structs
+			var firstField func(v Val, d int) (Val, bool)
+			firstField = func(v Val, d int) (Val, bool) {
+				v = p.R(v)
+				if d > 6 {
+					return v, false
+				}
+				if _, isIface := v.V.Type().Underlying().(*types.Interface); isIface {
+					return v, true
+				}
+				ld, ok := v.V.(*ssa.UnOp)
+				if !ok || ld.Op != token.MUL {
+					return v, false
+				}
+				al, ok := ld.X.(*ssa.Alloc)
+				if !ok || al.Referrers() == nil {
+					return v, false
+				}
+				for _, ref := range *al.Referrers() {
+					switch x := ref.(type) {
+					case *ssa.FieldAddr:
+						if x.Field != 0 || x.Referrers() == nil {
+							continue
+						}
+						for _, r2 := range *x.Referrers() {
+							if st, ok := r2.(*ssa.Store); ok && st.Addr == ssa.Value(x) {
+								return firstField(Val{st.Val, v.F, v.E}, d+1)
+							}
+						}
+					case *ssa.Store:
+						if x.Addr == ssa.Value(al) {
+							return firstField(Val{x.Val, v.F, v.E}, d+1)
+						}
+					}
+				}
+				return v, false
+			}
+			cl, ok := firstField(Val{mi.X, rv.F, rv.E}, 0)
+			if !ok {
+				bad = "the proxy does not wrap the closer made from the caller's value"
+				return
+			}
+			closes := asserted(spec.closer)
+			switch x := cl.V.(type) {
+			case *ssa.Extract:
+				ta, isTA := x.Tuple.(*ssa.TypeAssert)
+				if isTA && x.Index == 0 && typeName(ta.AssertedType) == spec.closer && p.R(Val{ta.X, cl.F, cl.E}).V == arg {
+					sawSelf = true
+					if closes != triTrue {
+						badC = "the asserted value is used as the closer without the ok atom"
+					}
 					return
 				}
-				seenW[v] = true
-				if c, ok := v.(*ssa.Call); ok && c.Call.StaticCallee() != nil && strings.HasPrefix(c.Call.StaticCallee().Name(), "to") && c.Call.Args[0] == ssa.Value(fn.Params[0]) {
-					okWrap = true
-				}
-				if in, ok := v.(ssa.Instruction); ok {
-					for _, op := range in.Operands(nil) {
-						if *op != nil {
-							walk(*op, d+1)
+			case *ssa.Call:
+				sc := x.Call.StaticCallee()
+				if sc != nil && len(x.Call.Args) == 1 && p.R(Val{x.Call.Args[0], cl.F, cl.E}).V == arg {
+					if sc.String() == "io.NopCloser" {
+						sawWrap = true
+						if closes != triFalse {
+							badC = "a wrapper is used although the argument already closes (its own Close would never be called)"
 						}
+						return
+					}
+					if w.modSet[sc] {
+						// a closer-making helper beyond the inlining bound: the wrap is fine, its choice is not decided here
+						badC = orStr(badC, "UNDECIDED: closer made by "+fnShort(sc)+" beyond the inlining bound")
+						return
 					}
 				}
-				if ld, ok := v.(*ssa.UnOp); ok {
-					if al, ok := ld.X.(*ssa.Alloc); ok {
-						var stores func(addr ssa.Value, dd int)
-						stores = func(addr ssa.Value, dd int) {
-							if dd > 6 || addr.Referrers() == nil {
-								return
-							}
-							for _, ref := range *addr.Referrers() {
-								switch x := ref.(type) {
-								case *ssa.FieldAddr:
-									stores(x, dd+1)
-								case *ssa.Store:
-									if x.Addr == addr {
-										walk(x.Val, d+1)
-									}
-								}
-							}
-						}
-						stores(al, 0)
+			case *ssa.MakeInterface:
+				inner, ok := firstField(Val{x.X, cl.F, cl.E}, 0)
+				if ok && p.R(inner).V == arg {
+					sawWrap = true
+					if closes != triFalse {
+						badC = "a wrapper is used although the argument already closes (its own Close would never be called)"
+						return
 					}
+					hasRF := w.Prog.MethodSets.MethodSet(x.X.Type()).Lookup(nil, "ReadFrom") != nil
+					if hasRF != (asserted("io.ReaderFrom") == triTrue) {
+						badC = "the no-op closer offers ReadFrom although the wrapped writer does not (or hides it although it does)"
+					}
+					return
 				}
 			}
-			walk(mi.X, 0)
-			if !okWrap {
-				bad = "the proxy does not wrap the closer made from the caller's value"
-			}
+			bad = "the proxy does not wrap the closer made from the caller's value"
 		})
+		if over {
+			r.Undecided("C19.P-CTOR", spec.name, w.pos(fn.Pos()), "path cap")
+			continue
+		}
 		r.Check(bad == "" && nP > 0 && len(saw) == 4, "C19.P-CTOR", spec.name, w.pos(fn.Pos()), "four flavours: fast path iff asserted on the caller's value; ewma iff flag", orStr(bad, fmt.Sprintf("only %d of the four proxy flavours are constructed", len(saw))))
+		if strings.HasPrefix(badC, "UNDECIDED: ") {
+			r.Undecided("C19.P-CLOSER", "closer wrapped by "+spec.name, w.pos(fn.Pos()), strings.TrimPrefix(badC, "UNDECIDED: "))
+		} else if bad == "" {
+			r.Check(badC == "" && sawSelf && sawWrap, "C19.P-CLOSER", "closer wrapped by "+spec.name, w.pos(fn.Pos()), "the argument itself when it closes, else a no-op closer around it (ReaderFrom preserved)", orStr(badC, "branch missing"))
+		}
 	}
 	// Bar.ProxyReader / ProxyWriter pass len(ewmaDecorators) != 0
 	for _, spec := range []struct{ api, ctor string }{{"mpb.(*Bar).ProxyReader", "mpb.newProxyReader"}, {"mpb.(*Bar).ProxyWriter", "mpb.newProxyWriter"}} {
@@ -304,79 +366,6 @@ func checkC19(w *World, r *Report) {
 		r.Check(len(sel.Index()) > 1 && isIface && viaIface, "C19.P-CLOSE", construct, w.pos(nt.Obj().Pos()), "promoted from the embedded ReadCloser/WriteCloser", "Close is declared on the proxy type instead of being forwarded to the wrapped value")
 	}
 	r.Floor("C19.P-CLOSE", 8, "proxy types")
-	// toReadCloser / toWriteCloser (with whatever helpers they use, inlined): the argument itself when it
-	// already closes; otherwise a closer around it that offers ReadFrom exactly when the argument does
-	for _, spec := range []struct{ name, iface string }{{"mpb.toReadCloser", "io.ReadCloser"}, {"mpb.toWriteCloser", "io.WriteCloser"}} {
-		fn := w.Func(spec.name)
-		if fn == nil {
-			r.Unresolved("anchor", spec.name, "not found")
-			continue
-		}
-		bad := ""
-		sawSelf, sawWrap := false, false
-		arg := ssa.Value(fn.Params[0])
-		w.enumPaths(fn, pathOpts{InlineDepth: 2, Inline: func(_ ssa.CallInstruction, c *ssa.Function) bool { return c.Pkg == w.Mpb }}, func(p *Path) {
-			if bad != "" || p.Exit != "return" || len(p.Ret) != 1 {
-				return
-			}
-			rv := p.Ret[0]
-			asserted := func(iface string) tri {
-				out := tri(triUnknown)
-				for _, a := range p.Atoms {
-					c := p.cmpOf(a)
-					if c.Op != token.ILLEGAL {
-						continue
-					}
-					ex, ok := c.X.V.(*ssa.Extract)
-					if !ok || ex.Index != 1 {
-						continue
-					}
-					ta, ok := ex.Tuple.(*ssa.TypeAssert)
-					if !ok || typeName(ta.AssertedType) != iface {
-						continue
-					}
-					if p.R(Val{ta.X, c.X.F, c.X.E}).V != arg {
-						continue
-					}
-					if c.Pol {
-						out = triTrue
-					} else {
-						out = triFalse
-					}
-				}
-				return out
-			}
-			if ex, ok := rv.V.(*ssa.Extract); ok && ex.Index == 0 {
-				if ta, ok := ex.Tuple.(*ssa.TypeAssert); ok && typeName(ta.AssertedType) == spec.iface && p.R(Val{ta.X, rv.F, rv.E}).V == arg {
-					sawSelf = true
-					if asserted(spec.iface) != triTrue {
-						bad = "the asserted value is returned without the ok atom"
-					}
-					return
-				}
-			}
-			if asserted(spec.iface) != triFalse {
-				bad = "a wrapper is returned although the argument already closes (its own Close would never be called)"
-				return
-			}
-			switch x := rv.V.(type) {
-			case *ssa.Call: // io.NopCloser(r)
-				if len(x.Call.Args) == 1 && p.R(Val{x.Call.Args[0], rv.F, rv.E}).V == arg {
-					sawWrap = true
-					return
-				}
-			case *ssa.MakeInterface:
-				sawWrap = true
-				has := w.Prog.MethodSets.MethodSet(x.X.Type()).Lookup(nil, "ReadFrom") != nil
-				if has != (asserted("io.ReaderFrom") == triTrue) {
-					bad = "the no-op closer offers ReadFrom although the wrapped writer does not (or hides it although it does)"
-				}
-				return
-			}
-			bad = "returns neither the argument itself nor a no-op closer around it"
-		})
-		r.Check(bad == "" && sawSelf && sawWrap, "C19.P-CLOSER", spec.name, w.pos(fn.Pos()), "the argument itself when it closes, else a no-op closer around it (ReaderFrom preserved)", orStr(bad, "branch missing"))
-	}
 	_ = n
 	ruleTimeConservation(w, r, "C19")
 	ruleSamplesReach(w, r, "C19")
